@@ -934,7 +934,8 @@ func stageC17Run(raw json.RawMessage) Result {
 	}
 	// cross-check of the fallback walker against TLC's result
 	w := c17goWalk(code, len(bc.Constants), bc.GlobalCount, bc.LocalCount)
-	agree := w.Verdict == c.Verdict
+	// (verdicts about the real decoder's records are TLC's alone: the Go walk decodes by itself)
+	agree := w.Verdict == c.Verdict || strings.HasPrefix(c.Verdict, "decoder-")
 	if agree && c.Verdict == "ok" {
 		agree = c17sameAllow(w.Allow, allow)
 	}
